@@ -1,5 +1,5 @@
-import PydraModel.Sched.Idle
-import PydraModel.Props.C14
+import PydraModel.Sched.Cost
+import PydraModel.Props.C17
 /-
 C18 — Every submission terminates.
 
@@ -441,6 +441,122 @@ theorem C18_fault_free_terminates {wf : Wf} {k : Option Nat} {sorted : List Node
       have := roundsRun_of_cont sched st0 s hr
       rw [hs0, this] at hb
       omega
+
+/-! ### every ending of a fault-free run, and what the `not_started` break costs -/
+
+/-- C18, PARTIAL (hypothesis `FaultFree`) — EVERY ENDING, also the ones produced by the stall detector: the collected
+    errors are exactly the failed jobs, and the submission ends
+    * with outputs (`success`: no job failed, every node done), or
+    * with the error listing exactly the failed jobs (`failed`), or
+    * with the stall detector's own error (`stall`): then no job failed and some node is not done.
+    In particular a run that the detector ends while it is still marking a long chain of nodes downstream of a
+    failure (one level per poll, `C18_one_level_per_poll`) reports exactly the failed jobs. -/
+theorem C18_every_end {wf : Wf} {k : Option Nat} {sorted : List NodeId} (hw : WellFormed wf sorted)
+    (sched : List (List Ev)) (hff : FaultFree sched) {o : Outcome} {st : St}
+    (hrun : runAsync wf k sorted sched = .done o st) :
+    (∀ c, c ∈ st.errors ↔ st.w c = .err) ∧
+    ((o = .success ∧ st.errors = [] ∧ ∀ n, n ∈ wf.g.nodes → (st.ns.get n).isDone = true) ∨
+     (o = .failed st.errors ∧ st.errors ≠ []) ∨
+     (o = .stall ∧ st.errors = [] ∧ ∃ n, n ∈ wf.g.nodes ∧ (st.ns.get n).isDone = false)) := by
+  have hstate : (runAsync wf k sorted sched).state? = some st := by rw [hrun]; rfl
+  have hs := sinv_runAsync hw.topo sched hstate
+  have hf := li_runAsync (ff_loopInv wf k sorted) hw.topo ff_init sched hff hstate
+  obtain ⟨stp, hstp⟩ := runAsync_done hrun
+  obtain ⟨hnf, _, _, _, hcase⟩ := afterPoll_done_normal hstp
+  have h4 : ∀ c, c ∈ st.errors ↔ st.w c = .err := by
+    intro c
+    constructor
+    · exact hf.namedErr c
+    · intro he
+      rcases hf.errNamed c he with h | h
+      · rw [hnf] at h; simp at h
+      · exact h
+  refine ⟨h4, ?_⟩
+  by_cases he : st.errors = []
+  · have hne : st.errors.isEmpty = true := by simp [he]
+    rcases hcase with ⟨hdone, ho⟩ | ⟨hnd, ho⟩
+    · left
+      refine ⟨?_, he, hdone⟩
+      rw [ho]
+      unfold finish
+      simp only [hne, Bool.not_true, Bool.false_eq_true, if_false]
+      have : wf.g.nodes.filter (fun n => !(st.ns.get n).errored.isEmpty) = [] := by
+        rw [List.filter_eq_nil_iff]
+        intro n _
+        simp only [Bool.not_eq_true', Bool.not_eq_false, List.isEmpty_iff]
+        apply List.eq_nil_iff_forall_not_mem.mpr
+        intro i hi
+        have := (h4 _).mpr ((hs.ninv.loc n).errErr i hi)
+        rw [he] at this; simp at this
+      rw [this]; simp
+    · right; right
+      refine ⟨?_, he, hnd⟩
+      rw [ho]; simp [hne]
+  · right; left
+    have hne : st.errors.isEmpty = false := by simpa [List.isEmpty_iff] using he
+    refine ⟨?_, he⟩
+    rcases hcase with ⟨_, ho⟩ | ⟨_, ho⟩
+    · rw [ho]; unfold finish; simp [hne]
+    · rw [ho]; simp [hne]
+
+/-- C18 (cost of the `not_started` break, 1): ONE LEVEL PER POLL — a node that consumes a node which is unstarted when a
+    poll begins is still unstarted after that poll; so a chain of L unstarted nodes (e.g. downstream of a failure, each
+    waiting to be marked unrunnable) needs at least L polls -/
+theorem C18_one_level_per_poll {wf : Wf} {k : Option Nat} {sorted : List NodeId} (hw : WellFormed wf sorted)
+    {w : World} {ns : NSMap} (hn : NInv wf w ns) {m n : NodeId} (hm : m ∈ sorted) (hnm : n ∈ wf.preds m)
+    (hnb : (ns.get n).blk = none) (hmb : (ns.get m).blk = none) :
+    ((poll wf k sorted w ns).1.get m).blk = none :=
+  scan_one_level hw.topo ns sorted [] ns [] [] (by simp)
+    ⟨hn, Grow.refl _, fun p hp => absurd hp (by simp), fun j hj => absurd hj (by simp)⟩
+    (fun p hp => absurd hp (by simp)) (fun _ _ => rfl) m hm ⟨n, hnm, hnb⟩ hmb
+
+/-- C18 (cost of the `not_started` break, 2): the delay it imposes on an independent node ends as soon as everything
+    before that node in `sorted_nodes` has been started: then the poll examines it, and if its predecessors are done
+    it is started (or marked unrunnable) by that very poll -/
+theorem C18_examined_when_earlier_started {wf : Wf} {k : Option Nat} {sorted : List NodeId}
+    (hw : WellFormed wf sorted) {w : World} {ns : NSMap} (hn : NInv wf w ns) (mid : List NodeId) (y : NodeId)
+    (post : List NodeId) (hsplit : sorted = mid ++ y :: post) (hmid : ∀ x, x ∈ mid → (ns.get x).blk ≠ none)
+    (hyb : (ns.get y).blk = none) (hpd : ∀ p, p ∈ wf.preds y → (ns.get p).isDone = true) :
+    ((poll wf k sorted w ns).1.get y).blk ≠ none := by
+  show ((scan wf w sorted ns [] []).1.get y).blk ≠ none
+  rw [hsplit]
+  exact scan_reaches hw.topo ns y post mid [] ns [] (by simpa using hsplit)
+    ⟨hn, Grow.refl _, fun p hp => absurd hp (by simp), fun j hj => absurd hj (by simp)⟩ hmid hyb hpd
+
+/-- a chain 0 → 1 → … → 12 -/
+def chain13 : G := ⟨List.range 13, (List.range 12).map (fun i => (i, i + 1)), [], none⟩
+
+set_option maxRecDepth 100000 in
+/-- WITNESS (interaction with the 11 polls of the stall detector, failures): job 0 fails and 12 nodes downstream of it
+    have to be marked one per poll; the detector gives up first — the submission still ends with the error that names
+    exactly the failed job (as `C18_every_end` says), although nodes 2..12 were never marked -/
+theorem C18_long_failure_chain :
+    (match runAsync ⟨chain13, fun n _ => [n], fun c => c⟩ none (List.range 13)
+        [[.acquire 0, .finishErr 0, .complete 0]] with
+     | .done o st => some (o, (List.range 13).map (fun n => (st.ns.get n).isDone))
+     | _ => none) =
+    some (Outcome.failed [0], [true, true] ++ (List.range 11).map (fun _ => false)) := by decide
+
+set_option maxRecDepth 100000 in
+/-- WITNESS (the same interaction, no failure at all): node 0 succeeds and is followed by a chain of 12 nodes that
+    split over an empty list; each is started — and immediately done — by one poll, nothing is pending, so it is the
+    stall detector that polls, and after its 11th poll it raises although the workflow is healthy: a fault-free,
+    failure-free run that ends with the detector's error, while the synchronous loop returns the outputs.  (Workflows of
+    13 nodes are outside the quantifier of C17; reproduced on the real code, see the report.) -/
+theorem C18_long_empty_chain_stalls :
+    (match runAsync ⟨chain13, fun n _ => if n = 0 then [0] else [], fun c => c⟩ none (List.range 13)
+        [[.acquire 0, .finishOk 0, .complete 0]] with
+     | .done o _ => some o
+     | _ => none) = some Outcome.stall ∧
+    (runSync ⟨chain13, fun n _ => if n = 0 then [0] else [], fun c => c⟩ none (List.range 13) (fun _ => false) 31).1
+      = SyncOutcome.success := by decide
+
+/-- C18 for the debug worker: the synchronous loop terminates (no fuel caveat), see `C17_sync_terminates` -/
+theorem C18_sync_terminates {wf : Wf} {k : Option Nat} {sorted : List NodeId} (hw : WellFormed wf sorted)
+    (hc : ClosedGraph wf.g) (hac : Acyclic wf.g) (hk : k ≠ some 0) {r : NodeId → List Ck} (hr : RefJobs wf r)
+    (fail : Ck → Bool) (fuel : Nat) (hfuel : 2 * (sorted.flatMap r).length + 2 * sorted.length + 3 ≤ fuel) :
+    (runSync wf k sorted fail fuel).1 ≠ .outOfFuel :=
+  C17_sync_terminates hw hc hac hk hr fail fuel hfuel
 
 /-- Non-vacuity: the D24 schedule is *not* fault free, the D10 schedule of C14 is. -/
 example : ¬ FaultFree [[.vanish 0]] := by
